@@ -273,7 +273,7 @@ def judge(prog, r, rp, q, qdesc, res, ren):
                     # "plain binding" / "same import merged" - by a token that was left behind
                     t_cause = by_key[k]
                     if anchor is not None:
-                        generic = lambda cs: cs[0].startswith("by:") or cs[0] == "same-object-imported-in-two-scopes"
+                        generic = lambda cs: c02.generic_cause(cs[0])
                         if generic(c02.causes_for(prog, anchor, t_cause)):
                             for k2 in sorted(keys - hit):
                                 if not generic(c02.causes_for(prog, anchor, by_key[k2])):
